@@ -227,10 +227,16 @@ func suiteConc(t *testing.T, cfg cfgT) {
 		for _, s := range egUsers {
 			pool.add(s)
 		}
+		pool.add("m1")
+		pool.add("m2")
 		pool.addNet(a.nid, 1)
 		eeA := &engineEnv{e: a, pool: pool, nss: nss, strict: strict, gdepth: 60, width: 100}
 		eeA.header(out)
 		eeA.insert(t, egTuples(hr, nss, 6+hr.intn(20), strict || hr.chance(1, 2)))
+		if !strict && hr.chance(1, 2) {
+			mt, _ := egMotif(hr, nss)
+			eeA.insert(t, mt)
+		}
 		eeA.table(out)
 		reqs := concRequests(hr, nss)
 		// alone, on the warm registry
